@@ -176,15 +176,18 @@ func serializeAttrs(pc *PrintCtx, kvps Attrs) (err error) { //nolint:revive
 			ct.echoColorAndBg(pc, pc.clr, pc.bg)
 		}
 
-		if !inGroupedMode {
-			_, inGroupedMode = v.(groupedValue)
+		// whether THIS attribute is a group (the test must not stick to the
+		// attributes that follow it)
+		isGroup := inGroupedMode
+		if !isGroup {
+			_, isGroup = v.(groupedValue)
 		}
 
 		key := v.Key()
-		if inGroupedMode && !pc.jsonMode && pc.valueStringer == nil {
+		if isGroup && !pc.jsonMode && pc.valueStringer == nil {
 			key = strings.DotPrefix(key, prefix)
 		} else {
-			if inGroupedMode && !pc.jsonMode && pc.valueStringer == nil {
+			if isGroup && !pc.jsonMode && pc.valueStringer == nil {
 				panic("impossible condition matched: inGroupedMode && !pc.jsonMode")
 				// if inGroupedMode && !pc.jsonMode {
 				// 	key = DotPrefix(key, prefix)
